@@ -76,7 +76,7 @@ fn bisim(n: usize) {
     kani::cover!(m == MState::CData, "ends in continuation Data");
 }
 
-//@ harness: c09_bisim8 props=C09,C01,C19 tier=quick class=functional covers=12 mem=10 timeout=900 est=60
+//@ harness: c09_bisim8 props=C19 also=C09,C01 tier=quick class=functional covers=12 mem=10 timeout=900 est=60
 //@ bounds: every sequence of <= 8 arbitrary 80-bit words from the initial state (all 12 implementation states and every edge are reachable within 8 steps: covers)
 #[kani::proof]
 #[kani::unwind(9)]
@@ -84,12 +84,20 @@ fn c09_bisim8() {
     bisim(8);
 }
 
-//@ harness: c09_bisim12 props=C09,C01 tier=thorough class=functional covers=12 mem=16 timeout=3000 est=600
+//@ harness: c09_bisim12 props=C09,C01 tier=quick class=functional covers=12 mem=16 timeout=1500 est=90
 //@ bounds: every sequence of <= 12 arbitrary 80-bit words from the initial state
 #[kani::proof]
 #[kani::unwind(13)]
 fn c09_bisim12() {
     bisim(12);
+}
+
+//@ harness: c09_bisim20 props=C09 tier=thorough class=functional covers=12 mem=24 timeout=3000 est=600
+//@ bounds: every sequence of <= 20 arbitrary 80-bit words from the initial state
+#[kani::proof]
+#[kani::unwind(21)]
+fn c09_bisim20() {
+    bisim(20);
 }
 
 //@ harness: c09_step_any_state props=C09,C01 tier=quick class=functional covers=8 mem=8 timeout=600 est=30
